@@ -602,10 +602,15 @@ class ArrNormDomain(NormDomain):
             return res
         if dotted == 'numpy.einsum' and len(args) >= 2 and isinstance(args[0], Const) and all(isinstance(a, Arr) for a in args[1:]):
             return self.einsum(args[0].v, args[1:], node)
-        if dotted == 'numpy.moveaxis' and args and isinstance(args[0], Arr):
-            return Unknown('moveaxis on concrete array')
-        if dotted in ('numpy.transpose',) and args and isinstance(args[0], Arr) and args[0].ndim == 2 and len(args) == 1:
-            return self.getattr(args[0], 'T', node)
+        if dotted in ('numpy.moveaxis', 'numpy.swapaxes', 'numpy.transpose') and args and isinstance(args[0], Arr):
+            r_ = self._permuted(args[0], dotted.rsplit('.', 1)[-1], list(args[1:]), kwargs)
+            return r_ if r_ is not None else Unknown('%s on concrete array with axes that are not followed' % dotted)
+        if dotted == 'numpy.stack' and args and isinstance(args[0], Tup) and args[0].items and all(isinstance(z, Arr) and z.shape == args[0].items[0].shape for z in args[0].items) \
+                and (not kwargs and len(args) == 1 or (kwargs.get('axis', args[1] if len(args) > 1 else None) == Const(0) and len(args) <= 2)):
+            zs = args[0].items
+            return Arr((len(zs),) + zs[0].shape, [d for z in zs for d in z.data])
+        if dotted == 'numpy.reshape' and len(args) == 2 and isinstance(args[0], Arr):
+            return self.method(args[0], 'reshape', [args[1]], {}, node)
         if dotted in ('numpy.cross',) and len(args) == 2 and all(isinstance(a, Arr) and a.shape == (3,) for a in args):
             a, b = args
             def m(x, y):
@@ -669,8 +674,57 @@ class ArrNormDomain(NormDomain):
             data.append(acc)
         return Arr(oshape, data)
 
+    def _permuted(self, v, how, args, kwargs):
+        """moveaxis / swapaxes / transpose of a concrete array: the array with its axes in the new order (None: axes not constants)"""
+        import itertools
+
+        def ints(x):
+            if isinstance(x, Const) and isinstance(x.v, int) and not isinstance(x.v, bool):
+                return [x.v]
+            if isinstance(x, Const) and isinstance(x.v, (tuple, list)) and all(isinstance(k, int) for k in x.v):
+                return list(x.v)
+            if isinstance(x, Tup) and all(isinstance(k, Const) and isinstance(k.v, int) for k in x.items):
+                return [k.v for k in x.items]
+            return None
+        n = v.ndim
+        if how == 'transpose':
+            ax = kwargs.get('axes', args[0] if args else None)
+            if len(args) > 1:
+                ax = Tup(list(args))
+            order = list(reversed(range(n))) if ax is None or (isinstance(ax, Const) and ax.v is None) else ints(ax)
+        elif how == 'swapaxes':
+            a, b = (ints(x) for x in (list(args) + [None, None])[:2]) if len(args) == 2 else (None, None)
+            if not a or not b:
+                return None
+            order = list(range(n))
+            order[a[0] % n], order[b[0] % n] = order[b[0] % n], order[a[0] % n]
+        else:
+            src = ints(kwargs.get('source', args[0] if args else None)) if (args or 'source' in kwargs) else None
+            dst = ints(kwargs.get('destination', args[1] if len(args) > 1 else None)) if (len(args) > 1 or 'destination' in kwargs) else None
+            if src is None or dst is None or len(src) != len(dst) or any(not -n <= k < n for k in src + dst):
+                return None
+            src, dst = [k % n for k in src], [k % n for k in dst]
+            if len(set(src)) != len(src) or len(set(dst)) != len(dst):
+                return None
+            order = [k for k in range(n) if k not in src]
+            for d_, s_ in sorted(zip(dst, src)):
+                order.insert(d_, s_)
+        if order is None or sorted(k % n for k in order) != list(range(n)):
+            return None
+        order = [k % n for k in order]
+        shape = tuple(v.shape[k] for k in order)
+        data = []
+        for idx in itertools.product(*[range(d) for d in shape]):
+            src_idx = [0] * n
+            for pos, k in enumerate(order):
+                src_idx[k] = idx[pos]
+            data.append(v.get(*src_idx))
+        return Arr(shape, data)
+
     def getattr(self, v, name, node):
         if isinstance(v, Arr):
+            if name == 'T' and v.ndim > 2:
+                return self._permuted(v, 'transpose', [], {})
             if name == 'shape':
                 return Tup([Const(d) for d in v.shape])
             if name == 'ndim':
@@ -700,6 +754,9 @@ class ArrNormDomain(NormDomain):
                 if s is not None and _size(s) == _size(v.shape):
                     return Arr(s, v.data)
                 return Unknown('reshape')
+            if name in ('transpose', 'swapaxes'):
+                r_ = self._permuted(v, name, list(args), kwargs)
+                return r_ if r_ is not None else Unknown('%s with axes that are not followed' % name)
             if name == 'dot' and args and isinstance(args[0], Arr):
                 return self.matmul(v, args[0], node)
             if name in ('sum',) and not args and not kwargs:
